@@ -331,6 +331,65 @@ fn run_quats() -> Out {
     out
 }
 
+/// Settings left out are valid configurations too (the builder supplies its defaults): every subset of
+/// {duration, delay, repeat, reverse} omitted, three keyframe layouts, as a timeline and inside an animator.
+/// One entry per case; an empty signature means the case is fine.
+fn settings_omitted() -> Vec<(String, u64, String, Value)> {
+    let mut out = vec![];
+    for mask in 0..16u32 {
+        for (li, layout) in [[(0.0f32, 10.0f32, 1i32), (0.5, 60.0, 100)], [(0.0, 10.0, 1), (1.0, 60.0, 100)], [(0.25, 10.0, 1), (0.75, 60.0, 100)]].iter().enumerate() {
+            for rep in [Repeat::Times(2), Repeat::Infinite] {
+                let casej = || json!({"timeline": format!("P::timeline() with the setters {{duration_seconds(2): {}, delay_seconds(0.5): {}, repeat({rep:?}): {}, reverse(true): {}}} and keyframes {layout:?}", mask & 1 != 0, mask & 2 != 0, mask & 4 != 0, mask & 8 != 0), "family": "settings-omitted", "mask": mask});
+                let r = catch_unwind(AssertUnwindSafe(|| {
+                    let mut b = P::timeline();
+                    if mask & 1 != 0 {
+                        b = b.duration_seconds(2.0);
+                    }
+                    if mask & 2 != 0 {
+                        b = b.delay_seconds(0.5);
+                    }
+                    if mask & 4 != 0 {
+                        b = b.repeat(rep);
+                    }
+                    if mask & 8 != 0 {
+                        b = b.reverse(true);
+                    }
+                    for (pos, a, k) in layout.iter() {
+                        b = b.keyframe(P::keyframe(*pos).a(*a).k(*k));
+                    }
+                    let tl = b.build();
+                    let mut worst: Option<String> = None;
+                    for t in [0.0f32, 0.25, 0.5, 0.75, 1.0, 1.5, 2.0, 2.5, 3.0, 100.0, 1.0e6] {
+                        let mut p = P::default();
+                        tl.update(&mut p, t);
+                        if !finite_p(&p) && worst.is_none() {
+                            worst = Some(format!("update(t = {t}) gives {p:?}"));
+                        }
+                    }
+                    if !tl.delay().is_finite() || tl.cycle_duration().map(|c| !(c > 0.0) || !c.is_finite()).unwrap_or(false) || tl.duration().is_nan() {
+                        worst.get_or_insert(format!("metadata: delay {} cycle {:?} duration {}", tl.delay(), tl.cycle_duration(), tl.duration()));
+                    }
+                    let mut anim = StateAnimatorBuilder::<S4, PTimeline>::new().from_state(S4::U1).on(S4::X, tl).build();
+                    anim.set_state(&S4::X);
+                    for d in [0.0f32, 0.25, 1.0, 8.0] {
+                        anim.advance(d);
+                        if !finite_p(anim.current_values()) && worst.is_none() {
+                            worst = Some(format!("animator after advance({d}): {:?}", anim.current_values()));
+                        }
+                    }
+                    worst
+                }));
+                match r {
+                    Err(_) => out.push(("panic:settings-omitted".to_string(), (2u64 << 40) | (mask as u64) << 8 | li as u64, "a timeline built with some settings left to their defaults panicked when built, evaluated or animated".to_string(), casej())),
+                    Ok(Some(w)) => out.push(("non-finite:settings-omitted".to_string(), (2u64 << 40) | (mask as u64) << 8 | li as u64, w, casej())),
+                    Ok(None) => out.push((String::new(), 0, String::new(), Value::Null)),
+                }
+            }
+        }
+    }
+    out
+}
+
 pub fn digest_only() {
     let cfgs = configs();
     let ks = keyframe_sets();
@@ -378,6 +437,12 @@ pub fn run(run: Run) -> ! {
         acc.digests.push((cfgs.len(), 0, o.digest.0));
         for (j, (sig, desc, case)) in o.problems.into_iter().enumerate() {
             acc.sink.add(&sig, (1u64 << 40) | j as u64, || (desc, case));
+        }
+    }
+    for (sig, rank, desc, case) in settings_omitted() {
+        acc.ops += 20;
+        if !sig.is_empty() {
+            acc.sink.add(&sig, rank, || (desc, case));
         }
     }
     // the empty merged timeline is a valid (degenerate) configuration: its metadata must be finite
@@ -453,6 +518,13 @@ pub fn run(run: Run) -> ! {
 }
 
 pub fn replay(case: &Value) -> bool {
+    if case["family"] == "settings-omitted" {
+        let bad: Vec<_> = settings_omitted().into_iter().filter(|x| !x.0.is_empty()).collect();
+        for (s, _, d, _) in &bad {
+            println!("{s}: {d}");
+        }
+        return bad.is_empty();
+    }
     let cfgs = configs();
     let ks = keyframe_sets();
     let ci = case["config_index"].as_u64().unwrap_or(0) as usize;
